@@ -15,6 +15,11 @@ import nfc.tag
 import nfc.tag.tt3
 import nfc.tag.tt4
 
+class CommandBudgetExceeded(Exception):
+    """the code under test sent far more commands than any NDEF operation on this memory needs
+    (an endless loop); raised out of exchange() so that a check can never hang"""
+
+
 IDM = bytes(range(1, 9))
 PMM = bytes([0, 0xF0] + [0xFF] * 6)
 
@@ -88,6 +93,8 @@ class T3Sim:
         if cmd[2:10] != IDM:
             raise nfc.clf.TimeoutError
         self.ncmd += 1
+        if self.ncmd > 8 * self.nblocks + 2000:
+            raise CommandBudgetExceeded("type 3 simulator: %d commands" % self.ncmd)
         svcs, bl, rest = self.parse(cmd)
         err = bytearray([12, code + 1]) + IDM + b"\x01\xA2"
         if code == 6:
@@ -159,6 +166,8 @@ class T4Sim:
 
     def apdu(self, a):
         self.ncmd += 1
+        if self.ncmd > 8 * len(self.file) + 2000:
+            raise CommandBudgetExceeded("type 4 simulator: %d commands" % self.ncmd)
         if len(a) < 4:
             return b"\x67\x00"
         cla, ins, p1, p2 = a[:4]
@@ -288,6 +297,8 @@ class EmuLink:
             self.dead = True
             raise nfc.clf.TimeoutError
         self.sent_cmds.append(bytes(cmd))
+        if len(self.sent_cmds) > len(self.store) + 2000:
+            raise CommandBudgetExceeded("emulated type 3 tag: %d commands" % len(self.sent_cmds))
         rsp = self.emu.process_command(bytearray(cmd))
         self.frames.append((bytes(cmd), None if rsp is None else bytes(rsp)))
         if len(cmd) > 1 and cmd[1] == 0x08:
